@@ -4,20 +4,37 @@ from vx.core import Unit
 from vx.props import common
 
 from vx import v1types
-from vx.units import bound
+from vx.units import bound, iters
+from vx.units import algebra as al
 from vx.props import C05
 
 
-EVAL_STUBS = '''// ---- assumed callee contracts of Function::evaluate_bound (T5) ----
-// term iterator `&Function: IntoIterator<Item = (SortedIds, f64)>` (linear.rs / quadratic.rs / polynomial.rs into_iter, Box<dyn Iterator>): the (ids, coefficient)
+EVAL_STUBS = '''// ---- callees of Function::evaluate_bound ----
+// term iterator `&Function: IntoIterator<Item = (SortedIds, f64)>`: the real impls are verified units of this file (R31); the (ids, coefficient)
 // pairs sum to the represented polynomial, coefficients are those of the message (finite when the message is), ids are ids of the function
-#[verifier::external_body] pub fn function_terms(f: &Function) -> (r: Vec<(SortedIds, F64)>)
+pub proof fn lemma_tsum_kseq(t: Seq<(SortedIds, F64)>, n: int, m: Map<u64, F64>)
+    requires 0 <= n <= t.len()
+    ensures tsum(t, n, m) == kseq_sum(sitems(t), n, pw(m))
+    decreases n
+{ if n > 0 { lemma_tsum_kseq(t, n - 1, m); lemma_mono_unit(rv(t[n - 1].1), t[n - 1].0@, t[n - 1].0@.len() as int, m); } }
+// glue (verified): `self.into_iter()` is the real IntoIterator for &Function (a verified unit of this file); what evaluate_bound needs of the list follows from its contract
+pub fn function_terms(f: &Function) -> (r: Vec<(SortedIds, F64)>)
     requires fn_coo_ok(*f)      // IntoIterator for &Quadratic asserts equal COO lengths
     ensures forall|m: Map<u64, F64>| #![trigger tsum(r@, r.len() as int, m)] fn_val(*f, m) == tsum(r@, r.len() as int, m),
         fn_fin(*f) ==> forall|i: int| 0 <= i < r.len() ==> fin((#[trigger] r[i]).1),
         forall|i: int, j: int| 0 <= i < r.len() && 0 <= j < r[i].0@.len() ==> fn_ids(*f).contains(#[trigger] r[i].0@[j]),
         small_degree(*f) ==> forall|i: int| 0 <= i < r.len() ==> (#[trigger] r[i]).0@.len() < 256,
-{ unimplemented!() }
+{
+    let r = f.into_iter();
+    proof {
+        assert forall|m: Map<u64, F64>| #![trigger tsum(r@, r.len() as int, m)] fn_val(*f, m) == tsum(r@, r.len() as int, m) by { lemma_fn_titems_sum(r@, *f, m); lemma_tsum_kseq(r@, r.len() as int, m); }
+        assert forall|i: int| 0 <= i < r.len() implies (fn_fin(*f) ==> fin((#[trigger] r[i]).1)) && (small_degree(*f) ==> r[i].0@.len() < 256)
+            && (forall|j: int| 0 <= j < r[i].0@.len() ==> fn_ids(*f).contains(#[trigger] r[i].0@[j])) by {
+            lemma_fn_titems_from(r@, *f, i); lemma_fn_titems_len(r@, *f, i);
+        }
+    }
+    r
+}
 impl SortedIds {
     // Deref<Target=[u64]>::is_empty
     #[verifier::external_body] pub fn is_empty(&self) -> (r: bool) ensures r == (self@.len() == 0) { unimplemented!() }
@@ -106,6 +123,9 @@ def build(asm, tier):
     asm.file('spec/bound_spec.rs')
     asm.file('spec/poly_value.rs')
     asm.file('spec/box_spec.rs')
+    asm.extracted(al.sorted_ids_type(), 'sorted_ids.rs newtype SortedIds')
+    for sp in iters.ITER_SPECS:
+        asm.file(sp)
     asm.file('spec/evalbound_spec.rs')
     asm.raw('''pub open spec fn contains_tol(b: Bound, x: real, a: real) -> bool {
     xr_le(xr_sub(b.lower@, XR::Fin(a)), XR::Fin(x)) && xr_le(XR::Fin(x), xr_add(b.upper@, XR::Fin(a)))
@@ -114,9 +134,11 @@ def build(asm, tier):
     for u in bound.units():
         asm.unit(u)
     asm.raw('} // mod lib\npub mod units {\n' + common.UNITS_USES + 'broadcast use super::lib::ax_variable_id_key_model;\n')
-    asm.raw(EVAL_STUBS, 'assumed callee contracts')
-    for n in ('term iterator of &Function (function_terms)', 'SortedIds::chunks', 'SortedIds::is_empty'):
-        asm.stubs.append(dict(unit=n, proved_in='assumed (Box<dyn Iterator> / itertools chunk_by: outside the dialect); exercised by the bounded stand-in'))
+    asm.raw(iters.SORT_STUB + EVAL_STUBS, 'assumed callee contracts (SortedIds::chunks / is_empty, slice::sort_unstable) and the verified glue function_terms')
+    for n in ('SortedIds::chunks', 'SortedIds::is_empty'):
+        asm.stubs.append(dict(unit=n, proved_in='assumed (itertools chunk_by / Deref to a slice: outside the dialect); exercised by the bounded stand-in'))
+    for u in iters.iterator_units():
+        asm.unit(u)
     asm.unit(evaluate_bound())
     asm.raw('} // mod units\n')
     asm.guard(common.guard_fn('c16_axioms', 'ax_floor(0real); ax_ceil(0real); ax_floor(1real / 2real); ax_ceil(1real / 2real);', uses='use super::lib::*;'), 'vacuity: prelude axioms')
